@@ -49,7 +49,7 @@ Theorem unrepresentable_rejected cf s k t rest :
   255 < max_fanout t ->
   mcommit_tx cf s (UInsertTree k t :: rest) = (s, 1).
 Proof.
-  intros H. unfold mcommit_tx. cbn [prepare]. apply N.ltb_lt in H. rewrite H. reflexivity.
+  intros H. unfold mcommit_tx. cbn [static_code]. apply N.ltb_lt in H. rewrite H. reflexivity.
 Qed.
 
 (* ---- a locked tree: the commit that dereferences it is not applied ---- *)
